@@ -220,10 +220,15 @@ class MemBudget:
         with s.cv: s.used -= n; s.cv.notify_all()
 MEM = MemBudget(MEM_TOTAL_GB)
 
+# Thorough tier: wall budget per property (default 2 h, VP_THOROUGH_BUDGET_S).  Every quick query always runs; a deeper query that would start after
+# the deadline is not started and is reported as NOT decided (never as a success); one that is running at the deadline gets 5 more minutes.
+THOROUGH_DEADLINE = [None]
 def run_query(ctx, q, tier):
     need = q.mem_gb if tier == 'quick' else max(q.mem_gb, 12)
     got = MEM.acquire(need)
     try:
+        if tier == 'thorough' and 'quick' not in q.tiers and THOROUGH_DEADLINE[0] is not None and time.time() > THOROUGH_DEADLINE[0]:
+            return {'q': q, 'verdict': 'inconclusive', 'resource': True, 'reason': 'not started: the wall budget of the thorough tier was used up by the queries before it', 'wall': 0}
         return run_query_(ctx, q, tier)
     finally:
         MEM.release(got)
@@ -253,6 +258,8 @@ def run_query_(ctx, q, tier):
             return {'q': q, 'verdict': 'error', 'reason': 'cannot list loops: %s %s' % (ex, r0['err'][-300:]), 'wall': time.time() - t0}
         if us: cmd += ['--unwindset', ','.join('%s:%d' % kv for kv in us.items())]
     timeout = max(q.timeout or 0, 400 if tier == 'quick' else 1800)
+    if tier == 'thorough' and 'quick' not in q.tiers and THOROUGH_DEADLINE[0] is not None:
+        timeout = int(max(60, min(timeout, THOROUGH_DEADLINE[0] - time.time() + 300)))
     outp = os.path.join(prep['dir'], 'cbmc.json')
     r = run(cmd, timeout=timeout, mem_gb=q.mem_gb if tier == 'quick' else max(q.mem_gb, 12), stdout_path=outp)
     open(os.path.join(prep['dir'], 'cmd.txt'), 'w').write(' '.join(cmd) + '\n')
@@ -366,6 +373,10 @@ def do_check(pid, tier, only=None, keep=False, jobs=None, scratch=None):
     mod = load_prop(pid)
     # the thorough tier is a superset: it also runs every quick query
     queries = [q for q in mod.queries() if (tier in q.tiers or (tier == 'thorough' and 'quick' in q.tiers)) and (not only or re.search(only, q.name))]
+    if tier == 'thorough':
+        THOROUGH_DEADLINE[0] = t_start + float(os.environ.get('VP_THOROUGH_BUDGET_S', '7200'))
+        # quick queries first, then the deeper ones from cheap to expensive
+        queries.sort(key=lambda q: (0 if 'quick' in q.tiers else 1, q.timeout or 900))
     scratch = scratch or os.path.join(os.environ.get('VP_SCRATCH', '/var/tmp'), 'vp.%s.%d' % (pid, os.getpid()))
     ctx = Ctx(scratch, keep)
     results = []
